@@ -419,6 +419,12 @@ func (p *path) addRule(
 		if m.resp == nil {
 			return fmt.Errorf("response body field error %v", rule.ResponseBody)
 		}
+		for _, fd := range m.resp {
+			// SendMsg walks the path with Mutable(fd).Message().
+			if fd.Message() == nil || fd.Cardinality() == protoreflect.Repeated {
+				return fmt.Errorf("response body field error %v: not a message field", rule.ResponseBody)
+			}
+		}
 	}
 
 	// register method
